@@ -32,7 +32,7 @@ macro_rules! stats_struct {
 }
 stats_struct!(
     bodies, applies, deliveries, postponed, max_postponed_one_target, nested_replay, skipped_dead, skipped_dead_postponed, optional_taken, optional_skipped, polled_events, polled_in_tree, polled_reactions, payloads, payload_zero_listeners, payload_abort_release, doomed_insts, once_fired, once_retrigger_after_fire, revokes_applied, revoke_mid_dispatch, kills, kill_self, err_returns, excl_bodies, registrations, reg_dead_entity, slot_respawn, max_depth, roots, multi_kind_same_tree, sibling_reorder, frames, guaranteed_gc, guaranteed_poll, a1_ambiguous, ewr_bodies, ewr_nodata_ok, inserts_dead_at_apply, setifneq_equal, setifneq_diff, removal_reinsert_removal, sig_zero, entity_recursive_despawn, fifo_pairs_checked, sys_calls, reactors_per_key_ge7,
-    probes, ev_total, replayed, sys_recursive, acc_ops, single_acc, app_setup_again
+    probes, ev_total, replayed, sys_recursive, acc_ops, single_acc, app_setup_again, bulk_collected, max_bulk
 );
 
 #[derive(Clone, Debug)]
@@ -264,6 +264,10 @@ pub struct Checker<'a>
     fifo: HashMap<((u8, u32), Inst), u64>,
     gc_guaranteed_this_step: bool,
     in_direct_step: bool,
+    /// bulk auto-despawn scenario: entities whose signals are all dropped / entities with a clone still held / alive now
+    bulk_released: u32,
+    bulk_held: u32,
+    bulk_alive: i64,
     pub sys: SysModel,
 }
 
@@ -291,7 +295,7 @@ impl<'a> Checker<'a>
             tokens: vec![None; prog.insts.len()], res: [0, 0], payloads: HashMap::new(), pending_immediate_drop: None,
             polled: Vec::new(), postponed: Vec::new(), stack: Vec::new(), tree_depth: 0, seq: 0, sender: (DRIVER, 0),
             wr_keys: [Vec::new(), Vec::new()], sigs: vec![(None, 0); 4], doomed_ents: Vec::new(), resolve_uncertain: Vec::new(), fifo: HashMap::new(),
-            gc_guaranteed_this_step: false, in_direct_step: false, sys: Default::default(),
+            gc_guaranteed_this_step: false, in_direct_step: false, bulk_released: 0, bulk_held: 0, bulk_alive: 0, sys: Default::default(),
         }
     }
 
@@ -1467,7 +1471,7 @@ impl<'a> Checker<'a>
             Op::WrAdd(k, trigs) => Issued::WrAdd(*k, trigs.iter().take(crate::harness::MAX_BUNDLE).map(|t| self.resolve(t)).collect()),
             Op::WrRemove(k, trigs) => Issued::WrRemove(*k, trigs.iter().take(crate::harness::MAX_BUNDLE).map(|t| self.resolve(t)).collect()),
             Op::WrRun(k) => Issued::WrRun(*k),
-            Op::EwrAdd(k, s, data) => Issued::EwrAdd(*k, slot(self, *s), *data),
+            Op::EwrAdd(k, s, data) | Op::EwrAddEc(k, s, data) => Issued::EwrAdd(*k, slot(self, *s), *data),
             Op::EwrRemove(k, s, mask) =>
             {
                 let all = crate::harness::ewr_trigs(*k, *s);
@@ -1745,7 +1749,33 @@ impl<'a> Checker<'a>
             WOp::Remove(s, c) => { let e = slot(self, *s); self.do_remove(e, *c)?; }
             WOp::TriggerMutation(s, c) => { let e = slot(self, *s); self.do_mutation_trigger(e, *c)?; }
             WOp::Insert(s, c, v) => { let e = slot(self, *s); let ex = self.ents[e].alive; self.do_insert(e, *c, *v, ex)?; }
-            WOp::Gc => self.guaranteed_gc(),
+            WOp::Gc =>
+            {
+                self.guaranteed_gc();
+                if self.bulk_released > 0 || self.bulk_held > 0
+                {
+                    let Some(Ev::Bulk { uid, released, survivors, held, lost }) = self.peek()?.cloned() else { return self.unexpected("bulk auto-despawn observation"); };
+                    if uid != u || released != self.bulk_released || held != self.bulk_held { return bail("harness and spec disagree on the bulk auto-despawn bookkeeping"); }
+                    self.advance()?;
+                    if survivors > 0 { fail!(self, "C10", "autodespawn-leak", &[], "{survivors} of {released} entities whose signals had all been dropped survived the garbage collection that followed"); }
+                    if lost > 0 { fail!(self, "C10", "premature-autodespawn", &[], "{lost} of {held} entities were despawned by a garbage collection while a clone of their signal was still held"); }
+                    self.stats.bulk_collected += released as u64;
+                    // the held clones are dropped right after this collection
+                    self.bulk_alive = held as i64;
+                    self.bulk_released = held;
+                    self.bulk_held = 0;
+                }
+            }
+            WOp::SigBulk(n, m) =>
+            {
+                if !self.in_direct_step { return bail("bulk signal op inside a batch or tree (not generated)"); }
+                let kept = if *m > 0 { (0..*n).filter(|i| i % (*m as u16) == 0).count() as u32 } else { 0 };
+                self.bulk_held += kept;
+                self.bulk_released += *n as u32 - kept;
+                self.bulk_alive += *n as i64;
+                self.stats.sig_zero += 1;
+                if *n as u64 > self.stats.max_bulk { self.stats.max_bulk = *n as u64; }
+            }
             WOp::Poll =>
             {
                 self.stats.guaranteed_poll += 1;
@@ -1979,7 +2009,11 @@ impl<'a> Checker<'a>
         {
             match self.peek()? { Some(Ev::StepBegin(x)) if *x == i => self.advance()?, _ => { self.unexpected("step begin")?; } }
             self.gc_guaranteed_this_step = false;
-            if (!self.doomed_ents.is_empty() || !self.sys.doomed.is_empty()) && !matches!(step, Step::Direct(WOp::Gc) | Step::Direct(WOp::SigClone(_)) | Step::Direct(WOp::SigDrop(_)) | Step::Direct(WOp::SigPrepare(..)) | Step::Direct(WOp::Reparent(..)) | Step::Update | Step::AppSetup)
+            if (self.bulk_released > 0 || self.bulk_held > 0) && !matches!(step, Step::Direct(WOp::Gc) | Step::AppSetup | Step::Direct(WOp::SigBulk(..)))
+            {
+                return Err(Stop::Bail(Bail("bulk signals are not collected before other work (not generated)".into())));
+            }
+            if (!self.doomed_ents.is_empty() || !self.sys.doomed.is_empty()) && !matches!(step, Step::Direct(WOp::Gc) | Step::Direct(WOp::SigClone(_)) | Step::Direct(WOp::SigDrop(_)) | Step::Direct(WOp::SigPrepare(..)) | Step::Direct(WOp::Reparent(..)) | Step::Direct(WOp::SigBulk(..)) | Step::Update | Step::AppSetup)
             {
                 return Err(Stop::Bail(Bail("an entity whose last signal clone was dropped is not collected before other work (placement of in-tree collections is unspecified)".into())));
             }
@@ -2096,8 +2130,8 @@ impl<'a> Checker<'a>
         // conservation
         let unknown_alive = self.insts.iter().filter(|t| t.created && !t.known && t.alive && !t.doomed && !t.limbo && !matches!(t.origin, Origin::World(_) | Origin::EntityWorld(_) | Origin::App)).count() as i64;
         let unknown_maybe = self.insts.iter().filter(|t| t.created && !t.known && t.alive && (t.doomed || t.limbo) && !matches!(t.origin, Origin::World(_) | Origin::EntityWorld(_) | Origin::App)).count() as i64;
-        let lo = unknown_alive + self.sys.extra_entities_lo();
-        let hi = unknown_alive + unknown_maybe + self.sys.extra_entities_hi();
+        let lo = unknown_alive + self.sys.extra_entities_lo() + self.bulk_alive;
+        let hi = unknown_alive + unknown_maybe + self.sys.extra_entities_hi() + self.bulk_alive;
         if post.excess_entities > hi
         {
             let snap_data = post.snap.as_ref().map(|s| s.data_entities + s.sysevent_data).unwrap_or(0);
